@@ -42,4 +42,4 @@ for c in $CHECKS; do
   echo "$out" | grep -E '^(violation:|VIOLATION|KNOWN|verif: harness)' | cut -c1-300 | head -6
 done
 for c in $CHECKS; do [ -f /tmp/mutv-$$-$c.json ] && mv /tmp/mutv-$$-$c.json evidence/$c.json; done
-git -C /repo checkout -- .
+git -C /repo checkout -- . ; git -C /repo clean -fdq
